@@ -22,7 +22,7 @@ ASSUMPTIONS = ['helmert_exact rational evaluation (self-validated against mpmath
 N = {'quick': 1800, 'thorough': 30000}
 SHARDS = {'quick': 16, 'thorough': 32}
 REQUIRED_COUNTERS = ['first_call_of_process_with_int_coordinates', 'kept_results_compared_after_later_calls', 'unjudged_calls_before_a_judged_one', 'same_label_sequences', 'shipped_sets_calls', 'random_sets_calls', 'vcv_judged', 'vcv_none_judged', 'roundtrip_judged']
-VCV_KINDS = ['none', 'spd', 'rank1', 'rank2', 'zero', 'diag', 'cond1e8']
+VCV_KINDS = ['none', 'spd', 'rank1', 'rank2', 'zero', 'diag', 'cond1e8', 'whole']
 
 
 def plan(tier, seed):
@@ -79,6 +79,10 @@ def rand_vcv(rnd, kind):
         V = np.zeros((3, 3))
     elif kind == 'diag':
         V = np.diag(rs.rand(3) * 1e-4)
+    elif kind == 'whole':
+        # whole-number entries (a caller's np.eye(3), np.diag([4, 9, 1]) ...): representable in an integer dtype
+        A = rs.randint(-3, 4, (3, 3)).astype(float)
+        V = rnd.choice([A @ A.T, np.eye(3), np.diag(rs.randint(0, 10, 3).astype(float))])
     else:
         Q, _ = np.linalg.qr(rs.randn(3, 3))
         V = Q @ np.diag([1e-2, 1e-6, 1e-10]) @ Q.T
@@ -161,19 +165,29 @@ def judge(ns, ctx, case):
     run_unjudged(ns, ctx, case, t)
     x, y, z = case['xyz']
     V = None if case.get('vcv') is None else np.array(case['vcv'], dtype=float)
+    if V is not None and case.get('vrep'):
+        # the same matrix delivered another way (memory order, read-only, a view, an integer dtype)
+        V = core.rep_array(case['vrep'], V)
+        ctx.count('covariance_delivered_as:' + case['vrep'] + ('(%s)' % V.dtype if case['vrep'] == 'int64' else ''))
+    cx, cy, cz = core.rep_values(case.get('rep'), x, y, z)
+    if case.get('rep'):
+        ctx.count('argument_representation:' + case['rep'])
     p = hx.params_at(as_imported(ns, case['set']) if shipped else t)
     ctx.judged()
     ctx.count('shipped_sets_calls' if shipped else 'random_sets_calls')
     octant = ''.join('+' if c >= 0 else '-' for c in (x, y, z))
     rad = math.sqrt(x * x + y * y + z * z)
     ctx.bucket(case['set'] if shipped else 'random', octant, int(math.log10(rad)) if rad >= 1 else 0, case.get('vkind', 'none'))
-    Vin = None if V is None else V.copy()
+    Vin = None if V is None else np.array(case['vcv'], dtype=float)
     keeper = KEEPER.get(id(ctx))
     if keeper is None:
         keeper = KEEPER[id(ctx)] = core.ResultKeeper(ctx, 'conform7')
     keeper.verify()
     try:
-        r = T.conform7(x, y, z, t, V) if V is not None else T.conform7(x, y, z, t)
+        if case.get('shape'):
+            ctx.count('call_shape:' + case['shape'])
+        r = core.shaped_call(T.conform7, ['x', 'y', 'z', 'trans', 'vcv'], [cx, cy, cz, t, V], case.get('shape'),
+                             omit=('vcv',) if V is None else ())
         keeper.keep(r, dict(case, note='value kept from an earlier call of the sequence'))
     except Exception as e:
         mech = 'conform7:exception-with-covariance' if V is not None else 'conform7:exception'
@@ -267,6 +281,7 @@ def run_shard(spec, ctx):
             kind = VCV_KINDS[i % len(VCV_KINDS)] if has_sd or i % 3 == 0 else 'none'
             V = rand_vcv(rnd, kind)
             case = {'set': name, 'xyz': rand_point(rnd), 'vcv': None if V is None else V.tolist(), 'vkind': kind}
+            deliver_choice(rnd, case)
             if n == 0 and spec['shard'] % 2 == 1:
                 # the very first call of this process is made with whole-metre coordinates typed as int
                 case['xyz'] = [int(round(c)) for c in case['xyz']]
@@ -293,9 +308,27 @@ def run_shard(spec, ctx):
         kind = rnd.choice(VCV_KINDS)
         V = rand_vcv(rnd, kind)
         case = {'set': spec_of(t), 'xyz': rand_point(rnd), 'vcv': None if V is None else V.tolist(), 'vkind': kind}
+        deliver_choice(rnd, case)
         if rnd.random() < 0.03:
             case['before'] = [rnd.randrange(1000) for _ in range(rnd.choice([1, 2]))]
         judge(ns, ctx, case)
+
+
+def deliver_choice(rnd, case):
+    """How the same call is delivered: the covariance in another memory layout / read-only / as a view / in an integer
+    dtype (whole-number matrices), coordinates as numpy scalars or a float subclass, arguments by keyword."""
+    if case.get('vcv') is not None:
+        vrep = 'int64' if (case.get('vkind') == 'whole' and rnd.random() < 0.7) else core.choose_array_rep(rnd, 0.2)
+        if vrep:
+            case['vrep'] = vrep
+    rep = core.choose_rep(rnd)
+    if rep:
+        case['rep'] = rep
+        if core.rep_wants_integers(rep):
+            case['xyz'] = [float(round(c)) for c in case['xyz']]
+    shape = core.choose_shape(rnd, 0.08)
+    if shape:
+        case['shape'] = shape
 
 
 def replay(case, ctx):
